@@ -262,7 +262,7 @@ def gen_plan_c19(rng: Rng, tier: str, faulty: bool) -> Dict[str, Any]:
     return {"format": 1, "profile": NAME, "kind": "c19", "world": world, "sessions": sessions}
 
 
-def gen_plan_c19_enum(rng: Rng, tier: str, what: str) -> Dict[str, Any]:
+def gen_plan_c19_enum(rng: Rng, tier: str, what: str, base: int = 0) -> Dict[str, Any]:
     """Base plan of a fault-point enumeration: the fault is placed by the runner at every write
     call of the first save (what == "save") or every read call of the first restore."""
     world = worldgen.gen_world(rng.fork("world"), "cp")
@@ -289,6 +289,21 @@ def gen_plan_c19_enum(rng: Rng, tier: str, what: str) -> Dict[str, Any]:
                  {"op": "cp_breakdown", "graph": 1}, {"op": "cp_recompute", "graph": 1}]
         target = {"session": 0, "op": 3, "mode": "w"}
         kinds = ["write_enospc", "kill"]
+    elif base % 2 == 1:
+        # the extraction directory still holds the members of an EARLIER version of the same archive (restored
+        # once in session A); the archive was then written again after a weight-conserving what-if, so old and
+        # new members have the same sizes
+        edits = [{"swap_on_off": [rng.below(10000), rng.below(10000)]}, {"swap": [rng.below(10000), rng.below(10000)]}]
+        a_ops = [load, analyze, {"op": "cp_breakdown", "graph": 0}, {"op": "cp_save", "graph": 0, "out_dir": out},
+                 {"op": "cp_restore", "zip": out + ".zip", "rank": rank},
+                 {"op": "cp_reweight", "graph": 0, "edits": edits}, {"op": "cp_recompute", "graph": 0},
+                 {"op": "cp_breakdown", "graph": 0}, {"op": "cp_save", "graph": 0, "out_dir": out}]
+        b_ops = [dict(load),
+                 {"op": "cp_restore", "zip": out + ".zip", "rank": rank},   # <- target: op 1 of session 1
+                 {"op": "cp_restore", "zip": out + ".zip", "rank": rank},
+                 {"op": "cp_breakdown", "graph": 1}, {"op": "cp_recompute", "graph": 1}]
+        target = {"session": 1, "op": 1, "mode": "r"}
+        kinds = ["read_eio"]
     else:
         a_ops = [load, analyze, {"op": "cp_breakdown", "graph": 0}, {"op": "cp_save", "graph": 0, "out_dir": out}]
         b_ops = [dict(load),
@@ -303,11 +318,49 @@ def gen_plan_c19_enum(rng: Rng, tier: str, what: str) -> Dict[str, Any]:
             "enumerate": {"target": target, "kinds": kinds}}
 
 
-def gen_plan(rng: Rng, tier: str, kind: str, faulty: bool = False, enum: Optional[str] = None) -> Dict[str, Any]:
+def gen_plan_c19_double(rng: Rng, tier: str) -> Dict[str, Any]:
+    """Two faults in one history: an acknowledged save, a what-if, a second save into the same directory that
+    fails after it has rewritten some of the uncompressed members but before the archive is touched, and - in
+    the next interpreter life - one flipped stored byte inside a member of the surviving (first) archive."""
+    world = worldgen.gen_world(rng.fork("world"), "cp")
+    inc = rng.chance(0.6)
+    n_ranks = len(world["files"])
+    analyze = gen_analyze(rng, world, inc)
+    rank = analyze["rank"]
+    out = rng.choice(["cp/g", "cp/run.0"])
+    edits = [{"swap_on_off": [rng.below(10000), rng.below(10000)]}, {"swap": [rng.below(10000), rng.below(10000)]}] \
+        if rng.chance(0.6) else gen_edits(rng)
+    a_ops = [_load_op(rng, inc), analyze, {"op": "cp_breakdown", "graph": 0}, {"op": "cp_save", "graph": 0, "out_dir": out},
+             {"op": "cp_reweight", "graph": 0, "edits": edits}, {"op": "cp_recompute", "graph": 0},
+             {"op": "cp_save", "graph": 0, "out_dir": out}]    # <- op 6 fails
+    where = rng.weighted([("cp_data.pkl", 3), ("cp_graph.pkl", 2), (".zip", 3)])
+    if where == ".zip":
+        f1 = {"kind": "open_eacces", "path": ".zip", "suffix": True, "cls": "w", "op": 6, "errno": rng.choice(["EACCES", "ENOSPC", "EMFILE"])}
+    else:
+        f1 = {"kind": rng.choice(["write_enospc", "write_eio"]), "path": where, "suffix": True, "op": 6, "call": 0}
+    env_a = loader.gen_env(rng.fork("ea"), n_ranks, False)
+    env_a["faults"] = [f1]
+    z_a = rng.below(len(driver.HASH_SEEDS))
+    z_b = z_a if rng.chance(0.4) else (z_a + 1 + rng.below(len(driver.HASH_SEEDS) - 1)) % len(driver.HASH_SEEDS)
+    b_ops = [_load_op(rng, inc), {"op": "cp_restore", "zip": out + ".zip", "rank": rank},
+             {"op": "cp_breakdown", "graph": 0}, {"op": "cp_recompute", "graph": 0}]
+    pre = []
+    if rng.chance(0.8):
+        pre.append({"kind": "flip_zip_member", "path": out + ".zip", "member": rng.choice(["cp_graph.pkl", "cp_data.pkl", "trace_data.csv"]),
+                    "frac": rng.below(1000) / 1000.0, "mask": rng.choice([0x01, 0x10, 0x80, 0xFF])})
+    sessions = [{"zygote": z_a, "env": env_a, "pre": [], "ops": a_ops},
+                {"zygote": z_b, "env": loader.gen_env(rng.fork("eb"), n_ranks, False), "pre": pre, "ops": b_ops}]
+    return {"format": 1, "profile": NAME, "kind": "c19", "world": world, "sessions": sessions}
+
+
+def gen_plan(rng: Rng, tier: str, kind: str, faulty: bool = False, enum: Optional[str] = None, base: int = 0,
+             double: bool = False) -> Dict[str, Any]:
+    if double:
+        return gen_plan_c19_double(rng, tier)
     if kind == "c09":
         return gen_plan_c09(rng, tier)
     if enum:
-        return gen_plan_c19_enum(rng, tier, enum)
+        return gen_plan_c19_enum(rng, tier, enum, base)
     return gen_plan_c19(rng, tier, faulty)
 
 
@@ -396,8 +449,13 @@ def check(plan: Dict[str, Any], execution: Dict[str, Any], props: Optional[Set[s
     bd_of_saved: Dict[str, Optional[Dict[str, Any]]] = {}
     hashseed_of_save: Dict[str, Any] = {}
     archive_edited: Dict[str, bool] = {}
+    archive_fresh: Dict[str, bool] = {}   # the saved graph's path had been computed after its last edit
+    flipped_members: Dict[str, str] = {}   # archive -> member with one flipped data byte (its CRC cannot match any more)
     for si, (sess, sx) in enumerate(zip(plan["sessions"], execution["sessions"])):
         results = driver.op_results(sx)
+        for ev in sx["events"]:
+            if ev.get("ev") == "fault_fired" and ev.get("kind") == "flip_zip_member":
+                flipped_members[ev["path"]] = ev.get("member")
         graphs: List[Optional[Dict[str, Any]]] = []   # per graph index: {"node_list", "edited", "obs", "origin", "bd"}
         faults_here = bool(sess.get("env", {}).get("faults"))
         for r in results:
@@ -424,6 +482,7 @@ def check(plan: Dict[str, Any], execution: Dict[str, Any], props: Optional[Set[s
                     continue
                 res.probe("analysis_succeeded")
                 g["total"] = check_path(res, obs, g["node_list"], False, si, r["i"], "analysis")
+                g["path_fresh"] = True
                 if any(e[3] and e[3][3] == "critical_path_sync_dependency" and [e[0], e[1]] in
                        [[a, b] for a, b in zip(obs["critical_path_nodes"], obs["critical_path_nodes"][1:])] for e in obs["edges"]):
                     res.probe("path_through_sync_edge")
@@ -439,7 +498,16 @@ def check(plan: Dict[str, Any], execution: Dict[str, Any], props: Optional[Set[s
                     if fired or r.get("killed"):
                         res.probe("op_failed_under_fault")
                         if kind == "cp_save":
-                            archives[o["out_dir"] + ".zip"] = None
+                            z = o["out_dir"] + ".zip"
+                            touched = any(e.get("ev") in ("file_open", "fault_fired") and str(e.get("path", "")).endswith(".zip")
+                                          and (e.get("mode") == "w" or e.get("ev") == "fault_fired" and e.get("at") != "open")
+                                          for e in r["events"])
+                            if touched or archives.get(z) is None:
+                                archives[z] = None
+                            else:
+                                # the attempt died before the archive was opened for writing: the bytes of the
+                                # acknowledged archive are untouched and it stays in force
+                                res.probe("failed_save_left_the_acknowledged_archive")
                         continue
                     if kind == "cp_recompute" and r.get("exc") == "ValueError":
                         res.probe("recompute_rejected_graph")
@@ -476,12 +544,14 @@ def check(plan: Dict[str, Any], execution: Dict[str, Any], props: Optional[Set[s
                     g["obs"] = dict(g["obs"], **{k: obs[k] for k in obs if k in GRAPH_KEYS}) if g.get("obs") else obs
                     g["total"] = tot
                     g["bd"] = None
+                    g["path_fresh"] = True
                     res.states.add(("recompute", g["edited"], bool(g.get("restored"))))
                 elif kind == "cp_reweight":
                     if obs.get("changed"):
                         g["edited"] = True
                         g["edited_since_restore"] = True
                         g["changed_since_save"] = True
+                        g["path_fresh"] = False
                         g["bd"] = None
                         if g.get("obs"):
                             newe = {(u, v): w for u, v, _old, w in obs["changed"]}
@@ -512,6 +582,7 @@ def check(plan: Dict[str, Any], execution: Dict[str, Any], props: Optional[Set[s
                     bd_of_saved[z] = g.get("bd")
                     hashseed_of_save[z] = sx.get("hashseed")
                     archive_edited[z] = g["edited"]
+                    archive_fresh[z] = bool(g.get("path_fresh"))
                     g["saved_as"] = z
                     g["changed_since_save"] = False
                     res.probe("save_acknowledged")
@@ -519,9 +590,11 @@ def check(plan: Dict[str, Any], execution: Dict[str, Any], props: Optional[Set[s
                     bd_of_saved[g["saved_as"]] = obs
             elif kind == "cp_restore":
                 z = o["zip"]
+                if z in flipped_members:
+                    res.probe("restore_of_archive_with_flipped_member")
                 if not r["ok"]:
                     graphs.append(None)
-                    if fired or r.get("killed") or archives.get(z) is None:
+                    if fired or r.get("killed") or archives.get(z) is None or z in flipped_members:
                         res.probe("restore_failed_under_fault")
                         continue
                     res.violate("C19", f"restore-raised/{r.get('exc')}", {"msg": r.get("msg"), "where": r.get("where")}, si, r["i"])
@@ -538,6 +611,10 @@ def check(plan: Dict[str, Any], execution: Dict[str, Any], props: Optional[Set[s
                     g["saved_total"] = None
                     continue
                 res.probe("restore_checked")
+                g["path_fresh"] = archive_fresh.get(z, False)
+                if archive_fresh.get(z) and obs.get("critical_path_nodes"):
+                    # C09 on the copy as it comes back: the path it reports is a maximum-weight path of the graph it holds
+                    check_path(res, obs, obs.get("node_list"), True, si, r["i"], "restored-as-is")
                 if g["seed_changed"]:
                     res.probe("restore_under_other_hashseed")
                 res.oracle_evals += 1
